@@ -254,7 +254,10 @@ class Translator:
             raise Unrec("return type " + rett[1])
         arr_params = [pn for pn, k in params if k[0] == "arr"]
         writes = [a for a in arr_params if a in self._written_arrays(body, set(arr_params), {})]
-        self.cur = dict(name=name, params=params, writes=writes, ret=rett, maxidx={})
+        cparams = [(q.get("name", "_"), q["type"]["qualType"]) for q in fn["inner"] if q.get("kind") == "ParmVarDecl"]
+        static = fn.get("storageClass") == "static"
+        self.cur = dict(name=name, params=params, writes=writes, ret=rett, maxidx={}, cparams=cparams,
+                        cret=fn["type"]["qualType"].split("(")[0].strip(), static=static)
         self.fresh = 0
 
         def finish(env, retterm):
@@ -912,5 +915,6 @@ class Translator:
             else:
                 m[nme] = {"params": [(p, list(k) if k[0] != "tm" else ["tm", k[1]]) for p, k in info["params"]],
                           "writes": info["writes"], "maxidx": info["maxidx"], "sizes": info.get("sizes", {}),
-                          "memset": info.get("memset", {})}
+                          "memset": info.get("memset", {}), "cparams": info["cparams"], "cret": info["cret"],
+                          "static": info["static"], "ret": list(info["ret"])}
         return m
